@@ -43,11 +43,25 @@ def add_dead(rng, d):
             for e in df["expo"]:
                 if e[0] >= at:
                     e[0] += 1
+    # a wired dead branch: a two-port sub-solver linked to free (unexposed) ports of live children, emptied before prune()
+    for df in d["defs"][shift:]:
+        if rng.random() < 0.35:
+            used = {tuple(e) for c in df["conns"] for e in c} | {(e[0], e[1]) for e in df["expo"]}
+            free = [(c, q) for c, ch in enumerate(df["children"]) if not is_dead(d, ch)
+                    for q in range(hierlib.nports(d, ch)) if (c, q) not in used]
+            if free:
+                z = len(df["children"])
+                df["children"].append({"zombie": hierlib.gen_comp(rng, 2) if False else
+                                       {"n": 2, "S": [[[0.0, 0.0], [0.5, 0.0]], [[0.5, 0.0], [0.0, 0.0]]], "perm": [0, 1]}})
+                rng.shuffle(free)
+                df["conns"].append([list(free[0]), [z, 0]])
+                if len(free) > 1 and free[1][0] != free[0][0] and rng.random() < 0.5:
+                    df["conns"].append([[z, 1], list(free[1])])
     return d
 
 
 def is_dead(d, ch):
-    if "empty" in ch:
+    if "empty" in ch or "zombie" in ch:
         return True
     if "leaf" in ch:
         return False
@@ -118,9 +132,17 @@ class PruneStream(Stream):
         names = [x[2] for x in d["defs"][d["top"]]["expo"]]
         built = hierlib.build_all(d)
         top = built[d["top"]][0]
-        ret = top.prune()
+        for zs, inner in built.get("zombies", []):
+            zs.remove_structure(inner)          # the wired branch dies
+        crashed = False
+        try:
+            ret = top.prune()
+        except Exception:
+            ret, crashed = False, True           # prune() itself failed on a legal hierarchy
         shp = shape(top)
         try:
+            if crashed:
+                raise ValueError("prune() raised")
             check_free_pins(d, built)
             mod = top.solve()
             got = sorted(p.name for p in mod.pin_dic)
